@@ -373,14 +373,18 @@ func RunFree(ctx context.Context, cfg *ldriver.Config, pool *world.Pool, reg *wo
 	}
 	close(start)
 	finished := map[int]bool{}
-	timeout := time.After(4 * time.Second)
+	// a run that does not finish is a deadlock only if every library goroutine is blocked on a lock;
+	// a slow machine gets up to 60 s
+	began := time.Now()
 loop:
 	for len(finished) < n {
 		select {
 		case g := <-done:
 			finished[g] = true
-		case <-timeout:
-			break loop
+		case <-time.After(2 * time.Second):
+			if time.Since(began) > 60*time.Second || sched.LibraryGoroutinesAllBlocked("berty.tech/go-ipfs-log.(*IPFSLog)") {
+				break loop
+			}
 		}
 	}
 	fin := Rec{K: "final", Sid: sid, Seq: 1, AllDone: len(finished) == n, Stuck: []int{}, Procs: sc.Procs, Rets: make([]RetRec, n),
